@@ -343,7 +343,7 @@ theorem setDownload_cases (old flt2 : Flt) (changed : Bool) (f : Fetch) :
     (updateIntl flt2.checksum f = none ∧ fetchFails f = true ∧
       setDownload old flt2 changed f = ⟨⟨old.enabled, old.count, flt2.checksum, old.file⟩, false, .err⟩) ∨
     (updateIntl flt2.checksum f = none ∧ fetchFails f = false ∧
-      setDownload old flt2 changed f = ⟨flt2, changed, .ok false⟩) := by
+      setDownload old flt2 changed f = ⟨flt2, changed, .ok true⟩) := by
   unfold setDownload
   cases hu : updateIntl flt2.checksum f with
   | some p => obtain ⟨c, k, out⟩ := p; exact Or.inl ⟨c, k, out, rfl, rfl⟩
@@ -371,5 +371,61 @@ theorem setProps_cases (flt : Flt) (rq : SetReq) (f : Fetch) :
     | exact Or.inr (Or.inl ⟨rfl, _, rfl⟩)
     | exact Or.inr (Or.inr (Or.inl ⟨rfl, rfl, rfl⟩))
     | exact Or.inr (Or.inr (Or.inr ⟨rfl, rfl⟩))
+
+/-- Unless `setProps` asks for a rebuild, the list's enabled flag and file are
+what they were. -/
+theorem setProps_no_restart (flt : Flt) (rq : SetReq) (f : Fetch) (h : (setProps flt rq f).res ≠ .ok true) :
+    (setProps flt rq f).flt.enabled = flt.enabled ∧ (setProps flt rq f).flt.file = flt.file := by
+  obtain ⟨fe, cnt, ck, file⟩ := flt
+  obtain ⟨changed, dup, en⟩ := rq
+  have dl : ∀ (old flt2 : Flt) (ch : Bool), (setDownload old flt2 ch f).res ≠ .ok true →
+      (setDownload old flt2 ch f).flt.enabled = old.enabled ∧ (setDownload old flt2 ch f).flt.file = old.file := by
+    intro old flt2 ch hne
+    rcases setDownload_cases old flt2 ch f with ⟨c, k, out, _, hs⟩ | ⟨_, _, hs⟩ | ⟨_, _, hs⟩
+    · rw [hs] at hne; exact absurd rfl hne
+    · rw [hs]; exact ⟨rfl, rfl⟩
+    · rw [hs] at hne; exact absurd rfl hne
+  cases changed <;> cases dup <;> cases en <;> cases fe <;>
+    first
+    | exact ⟨rfl, rfl⟩
+    | exact absurd rfl h
+    | exact dl _ _ _ h
+
+/-- The engine's view stays in sync with the files across a set_url request. -/
+theorem setURLStep_insync (ls : List LState) (i : Nat) (rq : SetReq) (f : Fetch)
+    (h : ∀ l ∈ ls, insync l) : ∀ l' ∈ (setURLStep ls i rq f).1, insync l' := by
+  unfold setURLStep
+  cases hl : ls[i]? with
+  | none => simpa using h
+  | some l =>
+    simp only
+    have hlm : l ∈ ls := List.mem_of_getElem? hl
+    cases hres : (setProps l.flt rq f).res with
+    | err =>
+      simp only
+      obtain ⟨he, hfl⟩ := setProps_no_restart l.flt rq f (by rw [hres]; intro hh; cases hh)
+      intro l' hl'
+      rcases List.mem_or_eq_of_mem_set hl' with hm | rfl
+      · exact h l' hm
+      · have := h l hlm
+        unfold insync at this ⊢
+        simp only [he, hfl]; exact this
+    | ok r =>
+      cases r with
+      | true =>
+        simp only
+        intro l' hl'
+        simp only [List.mem_map] at hl'
+        obtain ⟨x, _, rfl⟩ := hl'
+        rfl
+      | false =>
+        simp only
+        obtain ⟨he, hfl⟩ := setProps_no_restart l.flt rq f (by rw [hres]; intro hh; cases hh)
+        intro l' hl'
+        rcases List.mem_or_eq_of_mem_set hl' with hm | rfl
+        · exact h l' hm
+        · have := h l hlm
+          unfold insync at this ⊢
+          simp only [he, hfl]; exact this
 
 end AGH.C15
